@@ -32,9 +32,9 @@ def L (name : String) (b : Bool) : Cond := ⟨.LOCAL, name, b⟩
 /-! ## Helper functions of the specification (exact `Nat` arithmetic) -/
 
 /-- `compute_epoch_at_slot` -/
-def epochAt (spe slot : Nat) : Nat := slot / spe
+abbrev epochAt (spe slot : Nat) : Nat := slot / spe
 /-- `compute_start_slot_at_epoch` -/
-def startSlot (spe epoch : Nat) : Nat := epoch * spe
+abbrev startSlot (spe epoch : Nat) : Nat := epoch * spe
 
 /-- `bytes_to_uint64(hash(signature)[0:8])` (little-endian) as a `Nat` -/
 def leNat (b : ByteArray) : Nat :=
@@ -65,7 +65,7 @@ def computeSubnetForAttestation (spe cps slot index : Nat) : Nat :=
   (cps * (slot % spe) + index) % 64
 
 /-- `compute_sync_committee_period(epoch) = epoch // EPOCHS_PER_SYNC_COMMITTEE_PERIOD` -/
-def syncPeriod (epp epoch : Nat) : Nat := epoch / epp
+abbrev syncPeriod (epp epoch : Nat) : Nat := epoch / epp
 
 /-- The committee `compute_subnets_for_sync_committee` / `get_sync_subcommittee_pubkeys` read, for a state at
 `slot`: `current_sync_committee` if `period(epoch(slot)) == period(epoch(slot + 1))`, else `next_sync_committee`. -/
